@@ -1,26 +1,48 @@
 ------------------------------- MODULE MCRip -------------------------------
+(* Constants of the model-checking / export / simulation configurations of Rip.tla.                       *)
+(* Addresses: neighbours a, b live on interface i1, c on i2; s1, s2 are the router's own addresses.       *)
 EXTENDS Rip
 E(k, m) == [k |-> k, m |-> m, tag |-> 0, af |-> "inet"]
-\* ---- small exhaustive world: neighbours a, b share interface i1, c is alone on i2
-MCNbrs == {"a", "b", "c"}
-MCSelfs == {"s1"}
-MCPrefixes == {"p1"}
-MCIfaces == {"i1", "i2"}
-MCIfOf == [x \in {"a", "b", "c", "s1"} |-> IF x = "c" THEN "i2" ELSE "i1"]
-MCMsgs == { <<>>, <<E("p1", 1)>>, <<E("p1", 2)>>, <<E("p1", 16)>> }
-MCStaticCfg == { <<"p1", "c", 3>> }
-MCLocalCfg == { <<"p1", 3>> }
-MCConnCfg == { <<"p1", "i2">> }
-MCQueryMtus == {84, 104}
-MCDts == {1}
-\* second world: two prefixes, two neighbours, multi-entry responses, odd entries
-M2Nbrs == {"a", "c"}
-M2Prefixes == {"p1", "p2"}
-M2IfOf == [x \in {"a", "c", "s1"} |-> IF x = "c" THEN "i2" ELSE "i1"]
-M2Msgs == { <<E("p1", 1), E("p2", 2)>>, <<E("p1", 15), E("p1", 1)>>, <<E("p2", 16)>>, <<E("p1", 0)>>, <<E("p2", 17)>>,
-            <<[k |-> "p1", m |-> 1, tag |-> 1, af |-> "inet"], E("p2", 1)>>,
-            <<[k |-> "p2", m |-> 1, tag |-> 0, af |-> "other"]>>, <<E("a", 1)>>, <<E("c", 0)>>, <<E("s1", 1)>> }
-M2StaticCfg == { <<"p2", "a", 2>> }
-M2LocalCfg == {}
-M2ConnCfg == {}
+Ifs == {"i1", "i2"}
+IfAll == [x \in {"a", "b", "c", "s1", "s2"} |-> IF x \in {"c", "s2"} THEN "i2" ELSE "i1"]
+OneSelf == {"s1"}
+OneP == {"p1"}
+NoCfg == {}
+Dt1 == {1}
+
+\* ---- LAN world: two neighbours on one interface (plain split horizon), nobody on the other (no filtering)
+LanNbrs == {"a", "b"}
+LanMsgs == { <<E("p1", 1)>>, <<E("p1", 2)>>, <<E("p1", 16)>> }
+LanStatic == { <<"p1", "b", 3>> }
+LanLocal == { <<"p1", 3>> }
+LanConn == { <<"p1", "i2">> }
+LanQueries == { <<"i1", TRUE, FALSE, 84>>, <<"i2", TRUE, TRUE, 104>>, <<"i2", FALSE, FALSE, 64>> }
+\* ---- point-to-point world: one neighbour per interface (poisoned reverse)
+P2pNbrs == {"a", "c"}
+P2pMsgs == { <<E("p1", 1)>>, <<E("p1", 2)>>, <<E("p1", 16)>>, <<E("p1", 14), E("p1", 0)>> }
+P2pStatic == { <<"p1", "c", 2>> }
+P2pQueries == { <<"i1", TRUE, FALSE, 104>>, <<"i2", FALSE, FALSE, 1400>> }
+\* ---- odd-entries world: two prefixes, multi-entry responses, entries the loop skips, /32s of others
+OddNbrs == {"a", "c"}
+OddPrefixes == {"p1", "p2"}
+OddMsgs == { <<E("p1", 1), E("p2", 2)>>, <<E("p1", 15), E("p1", 1)>>, <<E("p2", 16)>>, <<E("p1", 0)>>, <<E("p2", 17)>>,
+             <<[k |-> "p1", m |-> 1, tag |-> 1, af |-> "inet"], E("p2", 1)>>,
+             <<[k |-> "p2", m |-> 1, tag |-> 0, af |-> "other"]>>, <<E("a", 1)>>, <<E("c", 0)>>, <<E("s1", 1)>>, <<>> }
+OddQueries == { <<"i1", TRUE, FALSE, 104>> }
+\* ---- export worlds (edge cover): small, so that every transition can be replayed
+XMsgs == { <<E("p1", 1)>>, <<E("p1", 16)>> }
+XQueries == { <<"i1", TRUE, FALSE, 104>> }
+\* ---- simulation world: the code's own constants, three neighbours, three prefixes
+SimNbrs == {"a", "b", "c"}
+SimSelfs == {"s1", "s2"}
+SimPrefixes == {"p1", "p2", "p3"}
+SimMetrics == {0, 1, 2, 7, 14, 15, 16, 17}
+SimEnt == [k : SimPrefixes \cup SimNbrs \cup SimSelfs, m : SimMetrics, tag : {0}, af : {"inet"}]
+          \cup [k : SimPrefixes, m : {1}, tag : {0, 3}, af : {"inet", "other"}]
+SimMsgs == {<<>>} \cup {<<e>> : e \in SimEnt} \cup {<<e1, e2>> : e1, e2 \in SimEnt} \cup {<<E("p1", 1), E("p2", 1), E("p3", 1)>>}
+SimStatic == { <<"p1", "a", 1>>, <<"p2", "c", 3>>, <<"p3", "b", 15>> }
+SimLocal == { <<"p3", 1>>, <<"p2", 5>> }
+SimConn == { <<"p1", "i1">>, <<"p3", "i2">> }
+SimQueries == {<<i, f, so, mtu>> : i \in Ifs, f \in BOOLEAN, so \in BOOLEAN, mtu \in {64, 84, 104, 124, 564, 1400}}
+SimDts == {1, 2, 5, 12, 13, 25, 45, 70}
 =============================================================================
